@@ -152,6 +152,51 @@ def tlc(module, cfg=None, env=None, workers=2, timeout=1800, simulate=None, dept
     return res
 
 
+class MergedTlc:
+    """the results of several TLC runs over consecutive chunks of one record list, presented as one"""
+    def __init__(self, parts, offsets):
+        self.rc = max((p.rc for p in parts), default=0)
+        self.out = '\n'.join(p.out for p in parts)
+        self.wall = sum(p.wall for p in parts)
+        self.generated = sum(p.generated for p in parts)
+        self.distinct = sum(p.distinct for p in parts)
+        self.depth = sum(p.depth for p in parts)
+        # the record index of a verdict is made global again
+        self.fails = [(n, str(int(i) + off), rid) for p, off in zip(parts, offsets) for n, i, rid in p.fails]
+        self.prints = [x for p in parts for x in p.prints]
+        self.invariant_violated = [x for p in parts for x in p.invariant_violated]
+        self.errors = [x for p in parts for x in p.errors]
+        self.finished = all(p.finished for p in parts)
+
+
+def tlc_records(module, records, key, path, env=None, chunk=40000, parallel=4, name=None, **kw):
+    """Judge modules walk one state per record, i.e. one behaviour as long as the record list; TLC handles behaviours of at most
+    65535 states.  Longer lists are cut into chunks that are judged by separate TLC runs (up to `parallel` at a time; records are
+    independent of each other).  `key` is the IOEnv name of the record file, `path` where to write it."""
+    name = name or module
+    if len(records) <= chunk:
+        write_ndjson(path, records)
+        e = dict(env or {}); e[key] = path
+        return tlc(module, env=e, name=name, **kw)
+    import concurrent.futures
+    pieces = [records[i:i + chunk] for i in range(0, len(records), chunk)]
+    offsets = [i for i in range(0, len(records), chunk)]
+    def one(k):
+        pk = '%s.part%d' % (path, k)
+        write_ndjson(pk, pieces[k])
+        e = dict(env or {}); e[key] = pk
+        r = tlc(module, env=e, name='%s-part%d' % (name, k), **kw)
+        try:
+            os.remove(pk)
+        except OSError:
+            pass
+        return r
+    with concurrent.futures.ThreadPoolExecutor(max_workers=parallel) as ex:
+        parts = list(ex.map(one, range(len(pieces))))
+    write_ndjson(path, records[:1000])   # a sample stays for inspection
+    return MergedTlc(parts, offsets)
+
+
 # ---------------- known findings ----------------
 def load_findings():
     path = os.path.join(ROOT, 'known_findings.json')
